@@ -336,6 +336,7 @@ def build(unit, model, repo=None, mutate_false=None, tag=""):
                 "tags": c.get("tags", []),
                 "has_contract": fn["has_contract"],
                 "in_trait_impl": fn.get("in_trait_impl", False),
+                "has_body": fn.get("has_body", True),
                 "n_requires": count_clauses(c.get("requires", "")),
                 "n_ensures": count_clauses(c.get("ensures", "")),
                 "n_loop_contracts": len(c.get("loops", {})),
@@ -408,7 +409,7 @@ def _diag_lines(sp, fname):
     return out
 
 
-def run_verus(path, rlimit=30, seed=None, extra=None, timeout=900, verify_function=None):
+def run_verus(path, rlimit=30, seed=None, extra=None, timeout=400, verify_function=None):
     cmd = ["verus", path, "--output-json", "--time", "--error-format=json", "--multiple-errors", "10", "--rlimit", str(rlimit)]
     if seed is not None:
         cmd += ["--smt-option", f"smt.random_seed={seed}", "--smt-option", f"sat.random_seed={seed}"]
